@@ -511,7 +511,8 @@ class Blanks(Sub):
 class Arrays(Sub):
     name = 'c05.arrays'
     rule = ('flat arrays of length 1..4 in each separator style are flat lists; {row;row} with comma- or backslash-'
-            'separated rows of length 1..3 (at least one row of length >= 2) is the list of the two rows; non-trivial = all')
+            'separated rows of length 1..3 (at least one row of length >= 2) is the list of the two rows; 3..6 rows of 2 or 3 items are the list '
+            'of those rows; non-trivial = all')
     min_cases = 20
     min_nontrivial = 20
 
@@ -523,6 +524,10 @@ class Arrays(Sub):
             for b in range(1, 4):
                 for sep in (',', '\\'):
                     yield ['rows', a, b, sep]
+        for nrows in range(3, 7):
+            for width in (2, 3):
+                for sep in (',', '\\'):
+                    yield ['nrows', nrows, width, sep]
 
     def check(self, env, case):
         env.nt()
@@ -537,6 +542,15 @@ class Arrays(Sub):
             out = env.evo('COUNT(%s)' % text)
             if out != ['v', n]:
                 return fail('COUNT(%s) = %r' % (text, out), n, out)
+            return None
+        if case[0] == 'nrows':
+            nrows, width, sep = case[1:]
+            cells = [[(items[(r + c) % 6], vals[(r + c) % 6]) for c in range(width)] for r in range(nrows)]
+            text = '{' + ';'.join(sep.join(t for t, _ in row) for row in cells) + '}'
+            want = [[v for _, v in row] for row in cells]
+            out = env.evo(text)
+            if out != ['v', want]:
+                return fail('%r gives %r, expected the %d rows %r' % (text, out, nrows, want), want, out)
             return None
         a, b, sep = case[1:]
         r1, r2 = items[:a], items[a:a + b]
